@@ -1,10 +1,14 @@
 import MW.Staking.Facts
-import MW.Inv.Reach
+import MW.Inv.ReqHistory
+import MW.Inv.Demo
 /-!
-# C05 — Pro-rata, at-most-once withdrawal of unbonded tokens (single-transaction part)
+# C05 — Pro-rata, at-most-once withdrawal of unbonded tokens
 
-History-level parts (batch total = sum of its requests in every reachable state; payouts of a
-batch never exceed what was received) are in `MW.Props.C05H`.
+Single-transaction statements first (`withdraw_pays`, `withdraw_once`, …), then the statements over
+every reachable state (`batch_total_is_sum`, `single_payout_bounded`) and over every history after a
+batch became Received (`payouts_every_history`, `no_request_no_payout`: what a requester is paid is
+fixed at receipt, whatever calls follow in whatever order).  The bound "payouts of a batch never add
+up to more than was received" over histories is `MW.Props.C02.payouts_bounded`.
 -/
 namespace MW.Props.C05
 open MW MW.Staking
@@ -228,7 +232,70 @@ theorem single_payout_bounded (s s' : CState) (hr : CReach s) (env : Env) (info 
   rw [Nat.mul_comm batch.total recv]
   exact Nat.mul_le_mul_left recv (by omega)
 
-/-- non-vacuity: 1000 received for a batch of 300 with requests 100 and 200 pays 333 and 666 -/
+/-- **order and timing independence, at most once, exact amount — every history.**  From any
+reachable state in which batch `k` is Received and `u` holds the request `r` in it, after *any*
+sequence of entry-point calls (any accounts, messages, funds, block times, replies, callbacks):
+the batch record is unchanged, and the payments made to `u` out of batch `k` along the way are
+either none (the request is still there, unchanged) or exactly one, of
+`floor(received × own / total)` (and the request is gone). -/
+theorem payouts_every_history (s : CState) (hr : CReach s) (evs : List CEv) (k : Nat) (u : String) (b : Batch)
+    (recv : Nat) (r : Req) (hb : s.batches.find? k = some b) (hst : b.status = .received)
+    (hrecv : b.received = some recv) (hreq : findReq s.reqs k u = some r) :
+    (List.foldl cstep s evs).batches.find? k = some b
+    ∧ ((findReq (List.foldl cstep s evs).reqs k u = some r ∧ payoutsOf k u s evs = [])
+       ∨ (findReq (List.foldl cstep s evs).reqs k u = none ∧ payoutsOf k u s evs = [recv * r.amount / b.total])) :=
+  payouts_fixed (cinv_reach hr) evs hb hst hrecv hreq
+
+/-- accounts without a request in a Received batch are never paid from it, along every history
+(a request in a batch that is no longer pending cannot be created) -/
+theorem no_request_no_payout (s : CState) (hr : CReach s) (evs : List CEv) (k : Nat) (u : String) (b : Batch)
+    (hb : s.batches.find? k = some b) (hst : b.status = .received) (hreq : findReq s.reqs k u = none) :
+    findReq (List.foldl cstep s evs).reqs k u = none ∧ payoutsOf k u s evs = [] :=
+  gone_history (cinv_reach hr) evs hb hst hreq
+
+section Demo
+open MW.Chain.Demo
+
+private def u1 : String := demoUser
+private def u2 : String := "osmo1fl48vsnmsdzcv85q5d2q4z5ajdha8yu3aq6l09"
+private def hookStaker : String := (deriveIntermediateSender "channel-7" demoStaker "osmo").getD ""
+private def envAt (dS : Nat) : Env := { demoEnv with timeNs := demoEnv.timeNs + dS * 1000000000 }
+
+/-- boot, resume with totals 1000/1000, two unstakes (100 and 200) into batch 1, submission after the
+batch period, 1000 received after the unbonding period -/
+private def demoReceived : Option CState :=
+  match instantiate demoEnv { sender := demoAdmin, funds := [] } demoMsg with
+  | .error _ => none
+  | .ok (c, _) => some (List.foldl cstep c
+      [ .exec demoEnv ⟨demoAdmin, []⟩ (.resumeContract 1000 1000 0),
+        .exec demoEnv ⟨u1, [⟨demoX, 100⟩]⟩ .liquidUnstake,
+        .exec demoEnv ⟨u2, [⟨demoX, 200⟩]⟩ .liquidUnstake,
+        .exec (envAt 86400) ⟨u2, []⟩ .submitBatch,
+        .exec (envAt (86400 + 1814400)) ⟨hookStaker, [⟨demoD, 1000⟩]⟩ (.receiveUnstakedTokens 1) ])
+
+/-- calls after receipt, in an arbitrary order: u2 withdraws, a stranger tries, u1 unstakes into the
+next batch, u1 withdraws, u1 tries again, u2 tries again -/
+private def demoAfter : List CEv :=
+  [ .exec (envAt 3000000) ⟨u2, []⟩ (.withdraw 1),
+    .exec (envAt 3000001) ⟨demoAdmin, []⟩ (.withdraw 1),
+    .exec (envAt 3000002) ⟨u1, [⟨demoX, 5⟩]⟩ .liquidUnstake,
+    .sudo (.timeout "channel-7" 99),
+    .exec (envAt 3000003) ⟨u1, []⟩ (.withdraw 1),
+    .exec (envAt 3000004) ⟨u1, []⟩ (.withdraw 1),
+    .exec (envAt 3000005) ⟨u2, []⟩ (.withdraw 1) ]
+
+-- non-vacuity of `payouts_every_history` / `no_request_no_payout` (tests of the hypotheses, not proofs):
+-- the state is reachable by construction, batch 1 is Received with 1000 for a total of 300, and the
+-- history above pays 333 to u1 and 666 to u2, each exactly once, and nothing to the stranger
+#guard (demoReceived.map fun s => (s.batches.find? 1).map fun b => (b.status == .received, b.received, b.total))
+        == some (some (true, some 1000, 300))
+#guard (demoReceived.map fun s => ((findReq s.reqs 1 u1).map (·.amount), (findReq s.reqs 1 u2).map (·.amount)))
+        == some (some 100, some 200)
+#guard (demoReceived.map fun s => (payoutsOf 1 u1 s demoAfter, payoutsOf 1 u2 s demoAfter, payoutsOf 1 demoAdmin s demoAfter))
+        == some ([333], [666], [])
+end Demo
+
+/-- arithmetic of the demo: 1000 received for a batch of 300 with requests 100 and 200 pays 333 and 666 -/
 example : 1000 * 100 / 300 = 333 ∧ 1000 * 200 / 300 = 666 ∧ 333 + 666 ≤ 1000 := by decide
 
 end MW.Props.C05
